@@ -1108,13 +1108,16 @@ class World:
 
     def _same_array_check(self, hs, evt):
         """after MyGrad re-created a family: a member whose replayed view op handed back the base's
-        array itself (squeeze with nothing to squeeze) is not registered as a view - the listed C04
-        finding; nothing that follows from it is judged again in this run"""
+        array itself (squeeze with nothing to squeeze) must still be a view of the base.  It used to
+        read .base None (repaired in /repo by fix 18, 4c0cae8; DESIGN 8.4): the tag .../inplace:<form>/
+        same_array_object is no longer a listed finding, so this is reported as a violation"""
         for k in hs:
             t = self.T.get(k)
             if t is None or t.base is not None or not t.data.size:
                 continue
-            if any(x is not t and x.data is t.data for x in self.T.values()):
+            # (an owner whose array is also wrapped by a registered view of it - x.base is t - is
+            # the consistent state: only a second wrapper that does not name t as its base counts)
+            if any(x is not t and x.data is t.data and x.base is not t for x in self.T.values()):
                 self.violation("C04", "C04.base", f"step {self.nstep} ({evt}): handle {k} wraps the very array of another tensor but .base is None", tag=f"C04.base/view_wrong_base/{evt}/same_array_object")
                 for ki in self.info.values():
                     ki.foreign = True
